@@ -183,6 +183,8 @@ def build(x, funcs=None):
             return bi.min(a, b)
         if op == 'max':
             return bi.max(a, b)
+        if op in ('round', 'roundup', 'trunc'):
+            return getattr(bi, op)(a, b)   # builtin function spelling
         return getattr(operator, op)(a, b)   # python dispatch, incl. reflected
     if t == 'narop':
         a = B(x['a'])
@@ -800,6 +802,19 @@ def E(d, ints=False):
     if not ints:
         alts.append(FD({'t': just('binop'), 'op': just('truediv'), 'a': sub,
                         'b': st.sampled_from([2, 4, -2, 0.5])}))
+        # quantising builtins (their results are floats), either operand a
+        # plain number or a pattern
+        quantise = st.sampled_from(['round', 'roundup', 'trunc'])
+        quantum = st.one_of(st.sampled_from([2, 3, 4, 0.5]),
+                            flat_seq(True, 2, 5,
+                                     st.sampled_from(['inf', 1, 2])))
+        alts.append(FD({'t': just('binop'), 'op': quantise, 'a': sub,
+                        'b': quantum}))
+        alts.append(FD({'t': just('binop'), 'op': quantise,
+                        'a': st.one_of(st.integers(-9, 20),
+                                       st.sampled_from([0.5, 7.25, -3.5])),
+                        'b': flat_seq(True, 2, 5,
+                                      st.sampled_from(['inf', 1, 2]))}))
     s = st.one_of(*alts)
     _memo[key] = s
     return s
